@@ -83,6 +83,12 @@ CHECKS["C06"] = dict(level="model_checking", engine="bfs",
    note="A cache that returns values it was never given is out of scope (the trait's contract). Keys/ctx/nonce are a tape alphabet.",
    design="§2 C06")
 
+CHECKS["C04"] = dict(level="fault_enumeration", engine="sweep",
+   technique="fault enumeration on the real Poplar1 verification: malicious-client strategies assembled from public parts (real IDPF gen with arbitrary programmed values + transcribed correlated randomness) and byte-level tamper enumeration of every message of both rounds",
+   text="(a) Reports are built from public parts only: the real Idpf key generation programmed with data beta in {0,1,2,-1,3} and authenticator in {k*beta, k, 0, k+1} at one level, correlated randomness (A=-2a+k, B=a^2+b-ak+c) derived by a harness transcription honestly for the cheating value or perturbed at one level, input shares assembled through the wire format; every input x every aggregation parameter (bits<=3; on-path/sibling sets for 8 bits) x key tapes is verified by both aggregators. (b) For honest reports every byte of the public share (every value of the packed control bits), both input shares, both rounds of verifier shares and both verifier messages is altered over an alphabet. Oracle: whenever both aggregators finish, the output shares sum to the zero vector or a one-hot vector with value one; strategies the sketch cannot admit are rejected whenever the on-path candidate is queried; the harness's own honest and all-zero crafted reports must verify (conformance of the transcription).",
+   note="Verification keys are a fixed alphabet (a cheat passing by chance: <= 2/2^64 per key at inner levels). Two simultaneous non-zero candidates are reachable only through tampering (the IDPF is a point function), which layer (b) enumerates at byte level.",
+   design="§2 C04")
+
 NOT_APPLICABLE = {}
 
 def main():
